@@ -126,6 +126,16 @@ Theorem C14_pipeline_perm :
 Proof. exact p_answer_f_perm. Qed.
 Print Assumptions C14_pipeline_perm.
 
+(* finder.find + ParserState.get_setmap observed directly (no report in
+   between): the dict WITH its insertion order and the platform set of every
+   node of every member are the same for any enumeration and call order *)
+Theorem C14_finder_perm :
+  forall files files' events events',
+    Permutation files files' -> NoDup (map pf_path files) -> Permutation events events' ->
+    f_answer files events = f_answer files' events'.
+Proof. exact f_answer_perm. Qed.
+Print Assumptions C14_finder_perm.
+
 (* the same at table level: contributions in any order *)
 Theorem C14_table_perm :
   forall rows rows', Permutation rows rows' -> t_answer rows = t_answer rows'.
